@@ -295,6 +295,17 @@ def variants(case, labels, vec):
         require(core.close(vn, vec, 1e-12, 1e-13 * scale), "method %r with a precision matrix passed "
                 "along: %s, without it %s" % (case['method'], core._short(vn), core._short(vec)),
                 'unused-noise:' + case['method'])
+    # a list of datasets: every option of the call (weighting, folds, prior, precision) applies to each
+    # member -- two copies of the dataset give the single-dataset RDM twice
+    if known_region(case) is None and not case.get('descriptor_none'):
+        rl2 = lib(calc_rdm_unbalanced, [make_dataset(case, x.copy()), make_dataset(case, x.copy())],
+                  on_error='violation', sig='raises:calc_rdm_unbalanced:dataset-list', **call_kwargs(case))
+        v2 = np.asarray(rl2.dissimilarities, dtype=float)
+        rt, at = tol_for(case, scale)
+        require(v2.shape[0] == 2 and core.close(v2[0], vec[0], rt, at) and core.close(v2[1], vec[0], rt, at),
+                'list of two copies of the dataset (weighting=%r): RDMs %s and %s, the single call gives '
+                '%s' % (case['weighting'], core._short(v2[0]), core._short(v2[1]), core._short(vec[0])),
+                'dataset-list:options')
     # a list of datasets with one precision per dataset: each RDM uses its own precision
     # (the distance is linear in the precision, so 2N gives twice the N values)
     if case['noise'] is not None and case['method'] in ('mahalanobis', 'crossnobis') \
